@@ -341,7 +341,7 @@ func rulesPersist(c *Ctx) {
 			}
 		})
 		// I4
-		spawn, host := goSpawnOf(f)
+		spawn, host := c.goSpawnOf(f)
 		switch {
 		case spawn != nil:
 			// merge runs in a goroutine per item: the refresh obligation moves to the spawner,
@@ -448,23 +448,48 @@ func rulesPersist(c *Ctx) {
 	c.floor("I4", "merge sites (Join)", nJoin, 3)
 }
 
-// goSpawnOf: if f is a closure started with `go` in its parent, return that Go instruction and the parent.
-func goSpawnOf(f *ssa.Function) (*ssa.Go, *ssa.Function) {
-	p := f.Parent()
-	if p == nil {
-		return nil, nil
+// goSpawnOf: if f is a function literal started with `go` in its parent — or a named function
+// or method whose only static uses are `go f(...)` statements — return that Go instruction and
+// the function containing it.
+func (c *Ctx) goSpawnOf(f *ssa.Function) (*ssa.Go, *ssa.Function) {
+	if p := f.Parent(); p != nil {
+		var found *ssa.Go
+		eachInstr(p, func(in ssa.Instruction) {
+			g, ok := in.(*ssa.Go)
+			if !ok {
+				return
+			}
+			if mc, ok := g.Call.Value.(*ssa.MakeClosure); ok && mc.Fn == f {
+				found = g
+			}
+		})
+		return found, p
 	}
 	var found *ssa.Go
-	eachInstr(p, func(in ssa.Instruction) {
-		g, ok := in.(*ssa.Go)
-		if !ok {
-			return
+	var host *ssa.Function
+	other := false
+	for _, g := range c.RepoFns {
+		if c.isTestFile(g.Pos()) {
+			continue
 		}
-		if mc, ok := g.Call.Value.(*ssa.MakeClosure); ok && mc.Fn == f {
-			found = g
-		}
-	})
-	return found, p
+		eachInstr(g, func(in ssa.Instruction) {
+			call, ok := in.(ssa.CallInstruction)
+			if !ok || call.Common().StaticCallee() != f {
+				return
+			}
+			if gi, isGo := in.(*ssa.Go); isGo {
+				if found == nil {
+					found, host = gi, g
+				}
+			} else {
+				other = true
+			}
+		})
+	}
+	if found == nil || other {
+		return nil, nil
+	}
+	return found, host
 }
 
 // lenGuardCut implements the single path-sensitivity I4 needs: on paths through a loop body that
@@ -588,7 +613,7 @@ func (c *Ctx) ackAfter(site ssa.CallInstruction, start startPt, k *siteKind, dep
 	}
 	// the site runs in a goroutine started per item: the obligation moves to the spawner,
 	// after the spawning loop (and its WaitGroup.Wait)
-	if spawn, host := goSpawnOf(f); spawn != nil {
+	if spawn, host := c.goSpawnOf(f); spawn != nil {
 		h2, t2 := findPath(host, after(spawn), func(in ssa.Instruction) bool { return c.isSite(k, in) }, successReturn, lenGuardCut(host, spawn))
 		if h2 == nil {
 			return true, nil, nil
